@@ -190,6 +190,9 @@ func (r *Rec) Mine(i int) bool { return r.sh.Shards <= 1 || i%r.sh.Shards == r.s
 // Disjoint declares that this unit partitions its cases over the shards, so per-shard distinct counts add up.
 func (r *Rec) Disjoint() { r.sh.Disjoint = true }
 
+// Freeze suspends all counting (used for passes that only record what a generator produces).
+func (r *Rec) Freeze(on bool) { r.frozen = on }
+
 // Eval counts n evaluated cases.
 func (r *Rec) Eval(n int) {
 	if r.frozen {
